@@ -100,6 +100,9 @@ pub use parser::verif_hooks as verif_parser_hooks;
 #[cfg(comrak_verif)]
 #[doc(hidden)]
 pub use parser::verif_inline_hooks;
+#[cfg(comrak_verif)]
+#[doc(hidden)]
+pub use parser::verif_footnote_hooks;
 pub use typed_arena::Arena;
 pub use xml::format_document as format_xml;
 pub use xml::format_document_with_plugins as format_xml_with_plugins;
